@@ -56,6 +56,10 @@ class ModelsOps:
                     return isinstance(v, (TupleV, ListV, TermV, DictV, GenV)) or \
                         (isinstance(v, ObjV) and v.ci is not None and self.prog.lookup(v.ci, "__iter__") is not None)
             I.unsupported(node, f"isinstance against {spec!r}")
+        if isinstance(spec, (UnitV, QtyV, Num, StrV, NoneV, RateV, ListV, BoolV)):
+            # isinstance() arg 2 must be a type, a tuple of types, or a union
+            self.flag("bad-isinstance", node, f"isinstance against a value that is no type: {spec!r}")
+            I.raise_("TypeError", node)
         if not isinstance(spec, TypeV):
             I.unsupported(node, f"isinstance against {spec!r}")
         name = spec.name
@@ -532,6 +536,20 @@ class ModelsOps:
             kind = "frac" if kinds <= {"frac", "int", "bool", "dec"} else "exact"
         elif kinds <= {"dec", "int", "bool"}:
             kind = "exact" if op is ast.Pow else "dec"
+            if op is ast.Pow and l.kind == "dec":
+                # a decimal whose numerator and denominator have no prime factors besides 2 and 5 has a terminating
+                # reciprocal: every integer power of it is a decimal again
+                b = self.st.norm(l.rf)
+                if b.is_const() and b.const_value() != 0:
+                    def only_2_5(n_):
+                        n_ = abs(n_)
+                        for p_ in (2, 5):
+                            while n_ % p_ == 0:
+                                n_ //= p_
+                        return n_ == 1
+                    q_ = b.const_value()
+                    if only_2_5(q_.numerator) and only_2_5(q_.denominator):
+                        kind = "dec"
         else:
             kind = "exact"
         return Num(rf, kind)
@@ -949,9 +967,12 @@ class ModelsOps:
         self.st.effects.append(("convcall", conv, qty, unit, self.where(node)))
         c = self.I.choose(2, f"conv({getattr(qty, 'name', '?')})", ["None", "amount"])
         if c == 0:
+            self.st.effects.append(("convresult", conv, NONE))
             return NONE
         uid = self.st.ufind(unit.uid) if isinstance(unit, UnitV) else "?"
-        return Num(RF.atom(("conv", getattr(qty, "name", "q"), uid)), "exact")
+        r = Num(RF.atom(("conv", getattr(qty, "name", "q"), uid)), "exact")
+        self.st.effects.append(("convresult", conv, r))
+        return r
 
     def is_exception_class(self, name) -> bool:
         from .interp import _BUILTIN_EXC
